@@ -565,8 +565,10 @@ func (g *G) genC10(p *Plan) {
 			op.SrcKey = base[g.rng.Intn(len(base))]
 		case r < 90:
 			op.Sub = "delmulti"
-		case r < 95:
+		case r < 94:
 			op.Sub = "list"
+		case r < 96 && c.Backend != "singlefs" && len(c.Buckets) > 2:
+			op.Sub, op.Key = "forcerm", ""
 		default:
 			if c.Backend == "bolt" {
 				op.B = "_meta"
